@@ -4,7 +4,8 @@ package main
 //
 // Token level (model ops, answered by lean/CueVerif/Driver/C10.lean):
 //   O  str    what CUE's JSON decoder makes of an RFC 8259 string token
-//   O  num    what it makes of a number token (int/float kind) and how the value prints back
+//   O  num    what it makes of a number token: int/float kind and exact value
+//   I  numfmt the bytes the encoder prints for it          (ties Model.fmtDec ∘ decodeNumber)
 //   I  scan   the CUE scanner's verdict on the token          (ties Model.scanStringTok)
 //   I  sden   Go's encoding/json on the token                 (ties the SPEC's denote/wellPaired)
 //   I  nspec  an independent Go reading of the spelling       (ties the SPEC's coeff/exponent)
